@@ -1425,7 +1425,30 @@ _CHECKS = {'setidx': _check_setidx, 'unset': _check_unset, 'shift': _check_shift
 
 
 def check(case, ctx):
-    return _CHECKS[case['kind']](case, ctx)
+    # every input frame of the case is snapshotted when it is built and again after the judge has finished: reshaping and
+    # relational operations return new containers, their operands must read exactly as before (labels, depth, cells, dtypes)
+    built = []
+    orig = F.build_frame
+
+    def recording(*a, **k):
+        f = orig(*a, **k)
+        built.append((f, canon.snap(f)))
+        return f
+
+    F.build_frame = recording
+    try:
+        return _CHECKS[case['kind']](case, ctx)
+    finally:
+        F.build_frame = orig
+        for f, before in built:
+            try:
+                after = canon.snap(f)
+            except Exception as e:
+                after = ('snapshot_raised', type(e).__name__)
+            if after != before:
+                ctx.violation('operand_changed', detail={'before': canon.brief(before, 500), 'after': canon.brief(after, 500)},
+                              klass={'op': case['kind']})
+                break
 
 
 # --------------------------------------------------------------------------------------
